@@ -69,6 +69,11 @@ def from_val(ex, p, v, what='mpf()'):
                 return VMpf(fr.numerator, fr.denominator)
             # a non-dyadic decimal literal (0.01): mpmath sees its binary64 value; the ideal value is used
             return VMpf(fr.numerator, fr.denominator, err=abs(fr) * Fraction(1, 2 ** 52))
+        if ex.ctx.opts.get('track_float') and v.prov is not None and v.prov[0] == 'idiv':
+            # a binary64 quotient of two ints enters the mpf world: the engine carries the EXACT quotient, which is what the float
+            # holds only if the division was exact (divisor divides the dividend, everything below 2^53)
+            a_t, b_t = v.prov[1], v.prov[2]
+            ex.oblige(p, 'float-exact', z3.And(b_t != 0, a_t % b_t == 0, z_abs(a_t) < 2 ** 53, z_abs(b_t) < 2 ** 53), f'{what}:int/int-quotient-is-exact')
         return VMpf(None, 1, t=v.z(), err=None)
     if isinstance(v, VStr) and v.is_lit():
         fr = Fraction(v.lit())
@@ -128,8 +133,65 @@ def binop(ex, p, opn, a, b, node=None):
     raise EngineError(f'mpf operator {opn}')
 
 
+def round_to_prec(q, bits):
+    """round-to-nearest-even of the rational q to a `bits`-bit significand (what a correctly rounded mpf operation returns)"""
+    if q == 0:
+        return Fraction(0)
+    sign = -1 if q < 0 else 1
+    a = abs(Fraction(q))
+    e = a.numerator.bit_length() - a.denominator.bit_length()
+    if Fraction(2) ** e > a:
+        e -= 1
+    elif Fraction(2) ** (e + 1) <= a:
+        e += 1
+    scale = Fraction(2) ** (e - bits + 1)
+    m = a / scale                      # in [2^(bits-1), 2^bits)
+    fl = m.numerator // m.denominator
+    rem = m - fl
+    if rem > Fraction(1, 2) or (rem == Fraction(1, 2) and fl % 2 == 1):
+        fl += 1
+    return sign * fl * scale
+
+
+def sqrt_to_prec(q, bits):
+    """correctly rounded square root of the rational q >= 0"""
+    from math import isqrt
+    q = Fraction(q)
+    if q == 0:
+        return Fraction(0)
+    k = bits + 8 + max(0, q.denominator.bit_length() - q.numerator.bit_length()) // 2 + 4
+    scaled = q * (Fraction(4) ** k)
+    n = scaled.numerator // scaled.denominator
+    t = isqrt(n)
+    inexact = (t * t != n) or (scaled.denominator != 1)
+    # sqrt(q) * 2^k lies in [t, t+1); represent it as t (+ a sticky bit) and round to `bits` bits
+    nb = t.bit_length()
+    drop = nb - bits
+    if drop <= 0:
+        raise EngineError('sqrt emulation: not enough working bits')
+    hi = t >> drop
+    low = t & ((1 << drop) - 1)
+    half = 1 << (drop - 1)
+    if low > half or (low == half and (inexact or hi % 2 == 1)):
+        hi += 1
+    return Fraction(hi * (1 << drop), 1) / (Fraction(2) ** k)
+
+
+def emu_prec(p):
+    d = p.ghost.get('mp_dps')
+    if d is None or not d.conc():
+        raise EngineError('mpf emulation needs a concrete mp.dps')
+    return max(1, int(round((int(d.t) + 1) * 3.3219280948873626)))
+
+
 def finish(ex, p, opn, x, y, num, den, both_exact, node):
     line = getattr(node, 'lineno', '?')
+    if ex.ctx.opts.get('mpf_inexact') == 'emulate':
+        # concrete runs (engine-versus-CPython differential): every operation is correctly rounded at the current precision
+        if not (isinstance(num, int) and isinstance(den, int)):
+            raise EngineError('mpf emulation on symbolic operands')
+        r = round_to_prec(Fraction(num, den), emu_prec(p))
+        return VMpf(r.numerator, r.denominator)
     if both_exact and is_pow2(den):
         exact_ob(ex, p, num, f'{opn}@L{line}')
         return VMpf(num, den)
@@ -271,6 +333,20 @@ def to_int(ex, p, v, mode):
     return VInt(r)
 
 
+def to_binary64(ex, p, v, node, what):
+    """float(mpf) -- also what math.floor / math.ceil / math.trunc do to an mpf first (mpf defines none of __floor__, __ceil__,
+    __trunc__): the value is rounded to binary64.  Concrete values are rounded exactly as CPython does; for symbolic values the
+    conversion must be EXACT (obligation float-exact: power-of-two denominator and |numerator| < 2^53), otherwise the model refuses."""
+    line = getattr(node, 'lineno', '?')
+    if v.rational() and isinstance(v.num, int):
+        return VFloat(Fraction(float(Fraction(v.num, v.den))))
+    if v.rational() and v.exact() and is_pow2(v.den):
+        ex.oblige(p, 'float-exact', z3.And(v.num < 2 ** 53, v.num > -(2 ** 53)), f'mpf->float({what})@L{line}')
+        return VFloat(z3.ToReal(v.num) / v.den if v.den != 1 else z3.ToReal(v.num))
+    ex.oblige(p, 'float-exact', False, f'mpf->float({what})-of-an-inexact-value@L{line}')
+    return VFloat(v.z())
+
+
 # ---- builtins mpmath.*
 def b_mpf(ex, p, args, kwargs, node):
     yield p, from_val(ex, p, args[0], f'mpf@L{getattr(node, "lineno", "?")}')
@@ -296,6 +372,10 @@ def b_sqrt(ex, p, args, kwargs, node):
     v = from_val(ex, p, args[0])
     need_dps(ex, p)
     hook = ex.ctx.opts.get('mpf_sqrt_hook')
+    if hook is None and ex.ctx.opts.get('mpf_inexact') == 'emulate' and v.rational() and isinstance(v.num, int) and v.num >= 0:
+        r = sqrt_to_prec(Fraction(v.num, v.den), emu_prec(p))
+        yield p, VMpf(r.numerator, r.denominator)
+        return
     if hook is None:
         raise EngineError('mpmath.sqrt has no model selected')
     yield from hook(ex, p, v, node)
